@@ -59,7 +59,7 @@ def copy_semantics(fname, f, A0, args, viol, det, t=5):
     copy=False: the returned object `is` the argument and its content equals the copy=True result.
     Returns (status, result of the copy=True call)."""
     A = A0.copy()
-    st, R = call(f, A, *args, copy=True, t=t)
+    st, R = call(f, A, *args, copy=True, t=t, retry=10)
     if st == 'timeout':
         return st, None
     if st == 'exc':
@@ -69,11 +69,13 @@ def copy_semantics(fname, f, A0, args, viol, det, t=5):
     if R is A or (isinstance(R, np.ndarray) and np.shares_memory(R, A)):
         viol.append((fname, 'copy-true-new-object', det, {'copy': True}))
     Ad = A0.copy()
-    std, Rd = call(f, Ad, *args, t=t)           # default must behave as copy=True
+    std, Rd = call(f, Ad, *args, t=t, retry=10)           # default must behave as copy=True
+    if std == 'timeout' or std == 'exc':
+        viol.append((fname, 'copy-default-outcome', dict(det, outcome=str(std) + ' ' + str(Rd)[:120]), {'copy': 'default'}))
     if std == 'ok' and (not same_bits(Ad, A0) or Rd is Ad or not eq_nan(Rd, R)):
         viol.append((fname, 'copy-default-is-true', det, {'copy': 'default'}))
     A2 = A0.copy()
-    st2, R2 = call(f, A2, *args, copy=False, t=t)
+    st2, R2 = call(f, A2, *args, copy=False, t=t, retry=10)
     if st2 == 'ok':
         if R2 is not A2:
             viol.append((fname, 'copy-false-returns-argument', det, {'copy': False}))
@@ -82,6 +84,8 @@ def copy_semantics(fname, f, A0, args, viol, det, t=5):
                          {'copy': False}))
     elif st2 == 'exc':
         viol.append((fname, 'copy-false-raises', dict(det, exception=R2), {'copy': False}))
+    else:       # the copy=True call on the same input returned: a (10x re-tried) timeout here is a verdict
+        viol.append((fname, 'copy-false-timeout', det, {'copy': False}))
     return st, R
 
 
@@ -183,12 +187,10 @@ def run_tp_param(case):
     for pf in case['pf']:
         for cp in (True, False):
             A = A0.copy()
-            st, R = call(bct.threshold_proportional, A, pf, copy=cp, t=5)
+            st, R = call(bct.threshold_proportional, A, pf, copy=cp, t=5, retry=10)
             out['evals'] += 1
             det = {'kind': 'tp_param', 'n': n, 'W': ','.join(case['W']), 'p': repr(pf), 'copy': cp}
-            if st == 'timeout':
-                continue
-            if st != 'exc' or exc_kind(R) != 'BCTParamError':
+            if st != 'exc' or exc_kind(R) != 'BCTParamError':       # includes a (10x re-tried) timeout: the rejection is immediate
                 out['viol'].append(('threshold_proportional', 'param-error', dict(det, outcome=str(R)[:200]), {}))
             elif not same_bits(A, A0):
                 out['viol'].append(('threshold_proportional', 'param-error-argument-untouched', det, {}))
@@ -272,7 +274,7 @@ def run_el(case):
         if any(x is None for x in r) or [float(x) for x in r] != exp:
             V.append(('invert', 'cellwise', dict(base, result=frs_str(r)), {}))
         else:
-            st, R2 = call(bct.invert, R.copy(), t=5)
+            st, R2 = call(bct.invert, R.copy(), t=5, retry=10)
             out['evals'] += 1
             if st == 'ok':
                 if not np.allclose(R2, A0, rtol=1e-12, atol=0):
@@ -300,11 +302,9 @@ def run_el(case):
     for wcm in case.get('bad_wcm', ()):
         for cp in (True, False):
             A = A0.copy()
-            st, R = call(bct.weight_conversion, A, wcm, copy=cp, t=5)
+            st, R = call(bct.weight_conversion, A, wcm, copy=cp, t=5, retry=10)
             out['evals'] += 1
-            if st == 'timeout':
-                continue
-            if st != 'exc' or not str(R).startswith('NotImplementedError'):
+            if st != 'exc' or not str(R).startswith('NotImplementedError'):   # includes a (10x re-tried) timeout
                 V.append(('weight_conversion', 'unknown-command-raises', dict(base, wcm=wcm, copy=cp, outcome=str(R)[:200]), {}))
             elif not same_bits(A, A0):
                 V.append(('weight_conversion', 'unknown-command-argument-untouched', dict(base, wcm=wcm, copy=cp), {}))
@@ -399,8 +399,8 @@ def run_repr(case):
         ex = np.zeros((n, n), dtype=float if isint else dt)
         nz = E != 0
         ex[nz] = (1.0 / E[nz].astype(float)) if isint else (np.array(1, dtype=dt) / E[nz])
-        if isint and any(abs(f) > 1 for f in F):
-            return ('int-truncation', ex)                     # `W[E] = 1. / W[E]` stores floats into an integer array
+        if isint and any(f != 0 and (1 / f).denominator != 1 for f in F):
+            return ('int-truncation', ex)                     # some 1/w is not an integer: an integer array cannot hold the result
         return ('val', ex.astype(dt))
 
     for fname, f, args, tag in jobs:
@@ -410,7 +410,7 @@ def run_repr(case):
                 for cp in (True, False):
                     A, base = make_arg(Mf, layout, dt)
                     A_before = A.copy(); base_before = base.copy()
-                    st, R = call(f, A, *args, copy=cp, t=5)
+                    st, R = call(f, A, *args, copy=cp, t=5, retry=10)
                     out['evals'] += 1
                     key = 'repr:%s:%s' % (layout, dt); out['dist'][key] = out['dist'].get(key, 0) + 1
                     cond = {'layout': layout, 'dtype': dt, 'copy': cp, 'c_contiguous': layout == 'C'}
@@ -432,10 +432,20 @@ def run_repr(case):
                     if not isinstance(R, np.ndarray) or R.shape != (n, n):
                         V.append((fname, 'shape', det, cond)); continue
                     if ex[0] == 'int-truncation':
-                        if not np.array_equal(R.astype(float), ex[1]):
-                            V.append((fname, 'int-dtype-truncates', dict(det, result=frs_str(fmat(R)), exact=frs_str(fmat(ex[1]))), {'dtype': dt}))
-                        continue
-                    want = ex[1]
+                        # integer input whose inverse is not integral.  copy=True may return the exact float inverse (then everything is
+                        # judged as usual); the only *known* defect is the silent truncation towards zero `W[E] = 1. / W[E]` performs on an
+                        # integer array - accepted only if the content is exactly trunc(1/w); every other predicate stays in force.
+                        trunc = np.trunc(ex[1]).astype(dt)
+                        holder = R if cp else A
+                        if eq_nan(np.asarray(holder, dtype=float), ex[1]) and holder.dtype.kind == 'f':
+                            want = ex[1].astype(holder.dtype)
+                        else:
+                            if eq_nan(holder, trunc):
+                                V.append((fname, 'int-dtype-truncates', dict(det, result=frs_str(fmat(holder)), exact=frs_str(fmat(ex[1]))),
+                                          {'dtype': dt, 'copy': cp, 'result_is_truncation': True, 'some_inverse_not_integer': True}))
+                            want = trunc          # anything that is neither the exact inverse nor its truncation fails the content predicates below
+                    else:
+                        want = ex[1]
                     if cp:
                         if not same_bits(np.ascontiguousarray(base), np.ascontiguousarray(base_before)):
                             V.append((fname, 'copy-true-argument-untouched', dict(det, after=frs_str(fmat(A))), cond))
@@ -465,7 +475,7 @@ def run_round(xs):
     out = {'viol': [], 'lean': [], 'evals': 0, 'keys': [], 'dist': {}, 'sample': None}
     for s in xs:
         x = Fr(s); xf = float(x)
-        st, r = call(teachers_round, xf, t=2)
+        st, r = call(teachers_round, xf, t=2, retry=10)
         out['evals'] += 1
         det = {'kind': 'round', 'x': s, 'x_float': repr(xf)}
         if st != 'ok':
@@ -476,7 +486,7 @@ def run_round(xs):
         mod_exact = Fr(xf % 1) == x - x.__floor__()
         if not isinstance(r, int) or r != exp:
             out['viol'].append(('teachers_round', 'half-away-from-zero', dict(det, result=repr(r), expected=exp, float_mod=repr(xf % 1)),
-                                {'halfway': halfway, 'negative': x < 0, 'float_mod_exact': mod_exact}))
+                                {'x': repr(xf), 'halfway': halfway, 'negative': x < 0, 'float_mod_exact': mod_exact}))
         if mod_exact:           # the model is exact: compared only where the double `x % 1` is
             out['lean'].append(('tround x=%s' % rat_str(x), 'r=%d' % r if isinstance(r, int) else 'r=?', 'teachers_round'))
         else:
